@@ -25,6 +25,11 @@ type compilation struct {
 	// pkgInfos maps the packages path to their respective package infos.
 	pkgInfos map[string]*packageInfo
 
+	// nativePkgInfos maps the paths of the imported native packages to their
+	// respective package infos, so that the files that import the same native
+	// package refer to the same declarations.
+	nativePkgInfos map[string]*packageInfo
+
 	// typeInfos associates a TypeInfo to the nodes of the AST that is
 	// currently being type checked.
 	//
@@ -88,6 +93,7 @@ func newCompilation(globalScope map[string]scopeName) *compilation {
 	return &compilation{
 		pkgInfos:          map[string]*packageInfo{},
 		pkgPathToIndex:    map[string]int{},
+		nativePkgInfos:    map[string]*packageInfo{},
 		typeInfos:         map[ast.Node]*typeInfo{},
 		alreadySortedPkgs: map[*ast.Package]bool{},
 		indirectVars:      map[*ast.Identifier]bool{},
